@@ -72,6 +72,11 @@ CHECKS['C03'] = ('3/C03', 'A real AssemblyPower built from symbolic non-negative
                  'pin-bundle bounds relative to the power mesh: deposited = assigned is an SMT query per configuration; _integrate vs closed '
                  'form; core normalisation and scaling of every profile.')
 
+CHECKS['C09'] = ('3/C09', 'The geometry routines of the real Core re-run on Cores built by real Reactors (enumerated layouts) with mesh '
+                 'pitches, hex side, gap width and sqrt(3) symbolic: perimeter covered once, shared cells seen identically, symmetric '
+                 'conduction resistances, total area independent of the meshes are SMT queries; index tables of Core.load checked per '
+                 'layout (enumeration, no symbolic dimension).')
+
 NOT_APPLICABLE = {
     'C16': ('No symbolic dimension for a solver: process schedules/multiprocessing/file output, bitwise IEEE determinism, and '
             'object-identity/type mutation of the input dictionary on `is None`/key-presence branches (DESIGN section 4).'),
